@@ -953,7 +953,16 @@ theorem evicted_is_least_recently_heard (pre : List Msg) (hlen : pre.length < U3
       (by rw [← sv.1, ← se.1]; exact heq)
     exact hk ⟨this.1.symm, this.2.symm⟩
 
-/-- Non-vacuity: a full store after 16 senders; the victim is the first one heard. -/
+/-- non-vacuity of the CONCLUSION: a full store (16 senders heard once each, in order), then the first
+one heard again: the victim is the SECOND sender (heard at position 2), not the first (now heard at 17) -/
+example :
+    let pre : List Msg := ((List.range 16).map fun i => ((1 : Nat), i, (7 : Nat))) ++ [(1, 0, 8)]
+    let g := (storeRun GStore.empty pre).1
+    g.entries.length = 16 ∧
+    (g.entries[lruIdx g.entries]?).map (fun v => (v.fab, v.node)) = some (1, 1) ∧
+    lastSeen pre.reverse 1 1 = 2 ∧ lastSeen pre.reverse 1 0 = 17 ∧ lastSeen pre.reverse 1 15 = 16 := by
+  decide
+/-- Non-vacuity of the hypothesis: a full store after 16 senders. -/
 example : (storeRun GStore.empty ((List.range 16).map fun i => ((1 : Nat), i, (7 : Nat)))).1.entries ≠ [] := by
   decide
 
